@@ -7,6 +7,7 @@ mod c02;
 mod c03;
 mod c05;
 mod c06;
+mod c07;
 mod c09;
 mod c10;
 mod c11;
@@ -87,6 +88,7 @@ fn main() {
         "c03" => c03::run(&ctx),
         "c05" => c05::run(&ctx),
         "c06" => c06::run(&ctx),
+        "c07" => c07::run(&ctx),
         "c09" => c09::run(&ctx),
         "c10" => c10::run(&ctx),
         "c11" => c11::run(&ctx),
